@@ -244,7 +244,8 @@ CLAIMED = {
                      "before touching members and return the documented codes; the list grows before a slot beyond its capacity is "
                      "written. Structural equality of clones and map semantics under key variants are not decided. "
                      "Also: realloc growth increment >= 1; replacing or releasing one of an entry's key/key_orig never frees the allocation the other still uses; `*_clean` helpers reset the pointers they free and the counters that bound the freed block. "
-                     "Also (round 7): only insertion, removal, tear-down and builders of fresh lists write a list's element slots (a set copies onto the existing element); a destination value is cleaned only after the source was read.",
+                     "Also (round 7): only insertion, removal, tear-down and builders of fresh lists write a list's element slots (a set copies onto the existing element); a destination value is cleaned only after the source was read. "
+                     "Also: every uthash insertion follows a look-up of its key or takes its keys from a set (1 known finding: cif_packet_create with names that normalise alike).",
                 note=TB + "; 3 documented ownership-transfer exemptions (init_char text, parse_numb text, create_norm names)",
                 tech="escape (no-alias) analysis with interprocedural summaries + must-call-before / guard dominance on CFGs; interval evaluation; alias-pair free discipline"),
     "C20": dict(level="proof", ref="5 C20",
